@@ -72,6 +72,9 @@ def quick_specs():
     S.append(spec("carve-plain-sig", "plain", O(dir="{out}", export=["sqlite", "text"], sig=True), group="carve"))
     S.append(spec("carve-plain-tab", "plain", O(dir="{out}", export=["sqlite", "text"], carve=True, tables="t0"), group="carve"))
     S.append(spec("carve-csv", "plain", O(dir="{out}", export=["csv"], carve=True), group="carve"))
+    # signature-less tables first in the schema, deleted rows of a later table on freelist pages
+    S.append(spec("carve-fl-csv", "freelist", O(dir="{out}", export=["csv", "sqlite"], carve=True, fl=True), group="carve"))
+    S.append(spec("carve-fl-text", "freelist", O(dir="{out}", export=["text", "xlsx"], carve=True, fl=True), "config", group="carve"))
     S.append(spec("carve-xlsx", "plain", O(dir="{out}", export=["xlsx"], carve=True, tables="t2"), group="carve"))
     # prefix
     S.append(spec("pfx-plain", "plain", O(dir="{out}", export=ALL4, prefix="pre"), group="prefix"))
